@@ -48,10 +48,15 @@ STATEMENTS = {
     'repeat in group "NoGroup" as x with b from 1 to 50 begin brightness b set x end': [],
     'repeat in group "NoGroup" as x with h cycle begin hue h set x end': [], 'repeat in location "NoLoc" as x with h cycle 90 on x': [],
     'repeat in "Nowhere" as x with h cycle begin hue h set x end': [],
+    # the target is a variable: holding a light's name, an unknown name, or - a wrong type - a number
+    'assign idx 3 set idx': [], 'assign idx 2.5 on idx': [], 'assign nm "Nowhere" set nm': [], 'assign nm "A" off nm': [('A', 'set_power')],
+    'assign idx 7 set idx zone 1': [], 'assign idx 3 get idx': [], 'assign idx 4 set group idx': [], 'assign idx 5 on location idx': [],
+    'assign idx 3 set idx row 1': [], 'assign idx 3 set idx begin stage row 0 end': [], 'assign idx 0 set idx and "B"': [('B', 'set_color')],
+    'repeat with i from 1 to 2 set i': [], 'assign idx 3 repeat in idx and "C" as x on x': [('C', 'set_power')], 'assign idx 3 repeat in group idx as x on x': [],
     # row/column numbers far beyond any tile, on lights that have no tiles at all
     'set "A" row 12': [], 'set "Nowhere" column 20 30': [], 'set "MZ" row 100 column 200': [], 'set "B" begin stage row 9 column 40 end': [],
 }
-MISMATCH = [s for s, reqs in STATEMENTS.items() if not reqs or 'Nowhere' in s or 'NoGroup' in s or 'NoLoc' in s]
+MISMATCH = [s for s, reqs in STATEMENTS.items() if not reqs or 'Nowhere' in s or 'NoGroup' in s or 'NoLoc' in s or 'idx' in s]
 PRELUDE = 'hue 120 saturation 50 brightness 25 kelvin 2700 duration 1\n'
 
 
@@ -92,7 +97,8 @@ def plan_cases(tier, rng):
     # exhaustive: scripts with <= 4 requests, every assignment of 0/1/2/never
     small = [['set "A"', 'on "B"'], ['set group "G"', 'off "C"'], ['set "A" and "C"', 'get "A"', 'set "A"'],
              ['set "MZ" zone 1 3', 'set "MX" row 1', 'on "B"'], ['get "C"', 'set group "G"'],
-             ['set "MX" begin stage column 0 end', 'set "A"', 'set "Nowhere"', 'on "B"']]
+             ['set "MX" begin stage column 0 end', 'set "A"', 'set "Nowhere"', 'on "B"'],
+             ['assign idx 3 set idx', 'on "B"', 'assign idx 2.5 on idx', 'set "A"'], ['assign idx 4 set group idx', 'assign idx 3 get idx', 'off "C"']]
     for stmts in small:
         reqs = [(d, k, e + 1) for e, s in enumerate(stmts) for d, k in STATEMENTS[s]]
         for fails in itertools.product((0, 1, 2, 99), repeat=len(reqs)):
